@@ -17,7 +17,7 @@ def units():
                                       "invariants": inv, "decreases": "items + g_eintr_budget"}]},
                       "kind": "enumerated(item size=%d)" % b, "tier": "quick" if b in (1, 2, 3) else "thorough"})
     for fn, entry in (("psf_fseek", "h_fseek"), ("psf_ftell", "h_ftell"), ("psf_fclose", "h_fclose"), ("psf_close_rsrc", "h_close_rsrc"), ("psf_open_rsrc", "h_open_rsrc"), ("psf_ftruncate", "h_ftruncate"),
-                      ("psf_fopen", "h_fopen"), ("psf_set_stdio", "h_set_stdio"), ("psf_file_valid", "h_file_valid"), ("psf_is_pipe", "h_is_pipe"), ("psf_get_filelen", "h_get_filelen")):
+                      ("psf_use_rsrc", "h_use_rsrc"), ("psf_fopen", "h_fopen"), ("psf_set_stdio", "h_set_stdio"), ("psf_file_valid", "h_file_valid"), ("psf_is_pipe", "h_is_pipe"), ("psf_get_filelen", "h_get_filelen")):
         u = {"name": "file_io." + fn, "props": ["C14", "C15", "C16", "C19"], "harness": "file_io.harness.c", "entry": entry,
              "enforce": fn, "function": "file_io.c:" + fn, "trusted": E, "timeout": 600, "pre_gi_flags": ["--generate-function-body", "psf_log_printf", "--generate-function-body-options", "nondet-return"]}
         if fn == "psf_ftruncate":
